@@ -35,6 +35,11 @@ def gen_pre(rng, inherited, p_present=0.6, enc_p=0.25):
 def gen_meta(rng, p_present=0.8, enc_p=0.25):
     spec = {'encoding': _enc(rng, enc_p),
             'format': rng.choice([None, None, 'json'])}
+    if rng.random() < 0.12:
+        # the common content option "line_endings" on a metadata section
+        # (no typed attribute exists for it: set through .options, as a
+        # parsed file would carry it)
+        spec['line_endings'] = rng.choice(['unix', 'dos'])
     r = rng.random()
     if r < p_present:
         spec['obj'] = texts.json_object(rng)
@@ -144,6 +149,16 @@ def build(spec, rng, diffx_cls=None):
     rng.shuffle(flat)
     for obj, a, v in flat:
         setattr(obj, a, v)
+    # metadata line_endings: through the options dictionaries
+    def _le(container, mspec):
+        if mspec and mspec.get('line_endings'):
+            container.meta_section.options['line_endings'] = \
+                mspec['line_endings']
+    _le(d, spec.get('meta'))
+    for c, ch in zip(d.changes, spec['changes']):
+        _le(c, ch.get('meta'))
+        for f, fs in zip(c.files, ch['files']):
+            _le(f, fs.get('meta'))
     return d
 
 
